@@ -222,6 +222,38 @@ CLAIMED["C07"] = dict(
           "Soundness and zero-knowledge proper are outside TLC."),
     ref="4 C07")
 
+CLAIMED["C11"] = dict(
+    engine="base",
+    technique="TLA+ spec RangeStmt (truth tables of range, less-or-equal, interval, membership and non-membership statements over ordered boundary tokens, supported sizes, perturbations) enumerated by TLC; every row replayed on the bulletproofs of concordium_base with real commitments, both proof versions",
+    text=("RangeStmt.tla decides when each statement is true (every value below 2^n; a <= b with both operands and their difference n-bit; a <= v < b; element of / not element of a set) over eleven u64 boundary values, "
+          "which sizes the inner-product argument supports (n*m a power of two), and which perturbation was applied; the row's verdict is 'accept' exactly for true, supported, unperturbed rows. Each row is replayed: "
+          "commitments are made, range_proof::prove / verify_efficient, prove_/verify_less_than_or_equal, prove_/verify_in_range and the set (non-)membership provers and verifiers are run under Version1 and Version2, "
+          "with perturbed commitment, bit width, transcript, generators, key, proof bytes, swapped commitments, bounds or set. A prover may refuse a false statement; whatever it outputs must not verify."),
+    note=("No adversarial prover beyond calling the real prover with false inputs. Batch sizes up to 4, n up to 64."),
+    ref="4 C11")
+
+CLAIMED["C08"] = dict(
+    engine="base",
+    technique="TLA+ state machine IdIssuance (request with chosen revokers and threshold -> issuance -> credential creation -> chain verification under perturbations / anonymity revocation by subsets; limits and threshold meaning as invariants checked by TLC); one behaviour per transition replayed end to end on the identity library with real keys",
+    text=("IdIssuance.tla is the life cycle of an identity: the holder requests an identity object (version 0 with initial account, version 1 without) naming a subset of the provider's anonymity revokers and a threshold, "
+          "creates a credential for a counter in {0, 1, max, max+1} revealing a subset of attributes for a new or an existing account, the chain verifies it (accepted iff the counter is within max_accounts and nothing "
+          "was altered) and subsets of the chosen revokers decrypt their shares (the public identity credential is reconstructed iff the subset reaches the threshold). Every transition of the graph is a behaviour replayed "
+          "with fresh holder secrets: generate_pio(_v1), verify_credentials(_v1), verify_initial_cdi, create_credential, verify_cdi with single-bit flips spread over the credential's encoding, another provider, revoker key, "
+          "global context, account address or expiry, swapped revoker data, and reveal_id_cred_pub over the decrypted shares."),
+    note=("Two attributes per identity; PRF-key reconstruction and identity-object versions beyond the deployment path are not exercised; creation with a counter above the limit may succeed in the library (the chain must "
+          "then reject - checked)."),
+    ref="4 C08")
+
+CLAIMED["C18"] = dict(
+    engine="base",
+    technique="TLA+ spec Statements (attribute values ordered as their field encodings, truth and 64-bit provability of reveal / range / membership / non-membership atoms, perturbations) enumerated by TLC; rows replayed on StatementWithContext prove / verify over real Pedersen commitments, both proof versions; Version1's unbound range proofs recorded as known finding R1",
+    text=("Statements.tla fixes the order of attribute values (length byte first, then bytes), decides the truth of each atom at lower = value, value = upper - 1, value = upper, singleton and larger sets, and marks "
+          "range atoms provable only when bounds and value are within 2^64 of each other (the documented 64-bit range technique). Rows - attribute list, one or two atoms, perturbation in {challenge, credential id, "
+          "commitments, statement, proof bytes, proof version} - are replayed: a proof must be produced and verify exactly for provable unperturbed rows, revealed values are the committed ones, everything else "
+          "must not verify. With ProofVersion::Version1, statements made only of range atoms verify under a different challenge or credential id (their range proofs use a private transcript): recorded as R1."),
+    note=("Verifiable presentations over identity / web3 credentials, v1 anchors and linking signatures are not bound yet: only attribute statements against account-credential commitments are covered."),
+    ref="4 C18")
+
 NOT_YET = {
 }
 
